@@ -200,15 +200,6 @@ Qed.
 (* a draw of 12 bytes from /dev/urandom *)
 Definition DrawOK (e : env) : Prop := len (e_rand e) = 12 /\ bytes_ok (e_rand e).
 
-Lemma create_and_store_spec e f : DrawOK e ->
-  create_and_store_machine_uuid e f
-  = if e_write_ok e then Ok (fs_write machine_id_path (new_id e) f) else Err.
-Proof.
-  intros [Hl Hb]. unfold create_and_store_machine_uuid. rewrite Hl. cbn [N.eqb negb].
-  change (N.eqb 12 12) with true. cbn [negb]. fold (new_id e).
-  destruct (new_id_machine_id e Hb) as [Hlen _]. rewrite Hlen. reflexivity.
-Qed.
-
 Lemma hex_ascii s : Forall is_hex_digit s -> Forall (fun c => c < 128) s.
 Proof. apply Forall_impl. unfold is_hex_digit. intros c H. lia. Qed.
 
@@ -222,46 +213,170 @@ Lemma fs_write_same p d f : fs_write p d f p = Some d.
 Proof. unfold fs_write. now rewrite str_eqb_refl. Qed.
 Lemma fs_write_other p d f q : q <> p -> fs_write p d f q = f q.
 Proof. intros H. unfold fs_write. now rewrite str_eqb_neq. Qed.
+Lemma fs_remove_other p f q : q <> p -> fs_remove p f q = f q.
+Proof. intros H. unfold fs_remove. now rewrite str_eqb_neq. Qed.
+
+(* the private temporary file is never the id file *)
+Lemma tmp_path_neq e : machine_id_path <> tmp_path e.
+Proof.
+  intros H. apply (f_equal (@length N)) in H. unfold tmp_path in H.
+  rewrite app_length in H. cbn [length] in H. lia.
+Qed.
+
+(** the id file invariant: "nobody but this code writes the file" means it is absent or holds the
+    complete id create_and_store made for SOME draw and clock *)
+Definition IdFileOK (f : fs) : Prop :=
+  f machine_id_path = None \/ exists e0, bytes_ok (e_rand e0) /\ f machine_id_path = Some (new_id e0).
+
+(* what create_and_store_machine_uuid returns and leaves at the id path, for EVERY outcome of the
+   write, the link and the removal of the temporary file *)
+Lemma create_and_store_spec e f : DrawOK e ->
+  fst (create_and_store_machine_uuid e f)
+  = match e_write e with
+    | WriteDone => match f machine_id_path with
+                   | Some _ => Ok tt                           (* AlreadyExists: the other id is kept *)
+                   | None => match e_link e with LinkDone => Ok tt | LinkFailed => Err end
+                   end
+    | WriteFailed _ => Err
+    end
+  /\ snd (create_and_store_machine_uuid e f) machine_id_path
+     = match f machine_id_path with
+       | Some c => Some c
+       | None => match e_write e, e_link e with
+                 | WriteDone, LinkDone => Some (new_id e)
+                 | _, _ => None
+                 end
+       end.
+Proof.
+  intros [Hl Hb]. unfold create_and_store_machine_uuid. rewrite Hl.
+  change (N.eqb 12 12) with true. cbn [negb]. fold (new_id e).
+  destruct (new_id_machine_id e Hb) as [Hlen _]. rewrite Hlen. change (N.eqb 32 32) with true. cbn [negb].
+  pose proof (tmp_path_neq e) as Hne.
+  destruct (e_write e) as [|[junk|]]; cbn [do_write].
+  - unfold do_link. rewrite (fs_write_other _ _ _ _ Hne).
+    destruct (f machine_id_path) as [c|] eqn:Hf.
+    + cbn [fst snd]. split; [reflexivity|].
+      destruct (e_remove_ok e); [rewrite (fs_remove_other _ _ _ Hne)|]; rewrite (fs_write_other _ _ _ _ Hne); exact Hf.
+    + rewrite fs_write_same. destruct (e_link e); cbn [fst snd]; (split; [reflexivity|]).
+      * destruct (e_remove_ok e); [rewrite (fs_remove_other _ _ _ Hne)|]; apply fs_write_same.
+      * destruct (e_remove_ok e); [rewrite (fs_remove_other _ _ _ Hne)|]; rewrite (fs_write_other _ _ _ _ Hne); exact Hf.
+  - cbn [fst snd]. split; [reflexivity|].
+    assert (H : (if e_remove_ok e then fs_remove (tmp_path e) (fs_write (tmp_path e) junk f) else fs_write (tmp_path e) junk f) machine_id_path = f machine_id_path).
+    { destruct (e_remove_ok e); [rewrite (fs_remove_other _ _ _ Hne)|]; apply (fs_write_other _ _ _ _ Hne). }
+    rewrite H. destruct (f machine_id_path); [reflexivity|destruct (e_link e); reflexivity].
+  - cbn [fst snd]. split; [reflexivity|].
+    assert (H : (if e_remove_ok e then fs_remove (tmp_path e) f else f) machine_id_path = f machine_id_path).
+    { destruct (e_remove_ok e); [apply (fs_remove_other _ _ _ Hne)|reflexivity]. }
+    rewrite H. destruct (f machine_id_path); [reflexivity|destruct (e_link e); reflexivity].
+Qed.
+
+(* an id that is stored is never replaced, not even by a panicking call *)
+Lemma create_and_store_keeps e f c :
+  f machine_id_path = Some c -> snd (create_and_store_machine_uuid e f) machine_id_path = Some c.
+Proof.
+  intros Hf. unfold create_and_store_machine_uuid.
+  destruct (negb (len (e_rand e) =? 12)); [exact Hf|].
+  destruct (negb (len (format_uuid (rand1_of (e_rand e)) (rand2_of (e_rand e)) (e_now e mod 2 ^ 32)) =? 32)); [exact Hf|].
+  pose proof (tmp_path_neq e) as Hne.
+  set (uuid := format_uuid _ _ _).
+  assert (Hrm : forall g : fs, g machine_id_path = Some c ->
+                (if e_remove_ok e then fs_remove (tmp_path e) g else g) machine_id_path = Some c).
+  { intros g Hg. destruct (e_remove_ok e); [rewrite (fs_remove_other _ _ _ Hne)|]; exact Hg. }
+  destruct (e_write e) as [|[junk|]]; cbn [do_write].
+  - unfold do_link. rewrite (fs_write_other _ _ _ _ Hne), Hf. cbn [snd]. apply Hrm.
+    rewrite (fs_write_other _ _ _ _ Hne). exact Hf.
+  - cbn [snd]. apply Hrm. rewrite (fs_write_other _ _ _ _ Hne). exact Hf.
+  - cbn [snd]. apply Hrm. exact Hf.
+Qed.
+
+Lemma create_and_store_invariant e f : DrawOK e -> IdFileOK f -> IdFileOK (snd (create_and_store_machine_uuid e f)).
+Proof.
+  intros Hd Hinv. destruct (create_and_store_spec e f Hd) as [_ Hp]. unfold IdFileOK. rewrite Hp.
+  destruct Hinv as [Hf|(e0 & Hb & Hf)]; rewrite Hf.
+  - destruct (e_write e); [|left; reflexivity]. destruct (e_link e); [|left; reflexivity].
+    right. exists e. split; [apply Hd|reflexivity].
+  - right. exists e0. auto.
+Qed.
 
 Section WithUtf8.
   Variable utf8_valid : list N -> bool.
   Hypothesis ascii_valid : forall s, Forall (fun c => c < 128) s -> utf8_valid s = true.
 
-  (** no stored id: one is created from the draw and the clock, stored, and returned; it is a
-      32-digit hexadecimal string whatever was drawn *)
-  Theorem get_machine_id_fresh e f : DrawOK e -> e_write_ok e = true -> f machine_id_path = None ->
-    exists id, get_machine_id utf8_valid e f = Ok (id, fs_write machine_id_path id f)
-               /\ id = new_id e /\ MachineId id.
-  Proof.
-    intros Hd Hw Hf. exists (new_id e). unfold get_machine_id. rewrite Hf, create_and_store_spec, Hw by assumption.
-    cbn [bind]. rewrite fs_write_same. destruct Hd as [_ Hb]. pose proof (new_id_machine_id e Hb) as Hid.
-    rewrite ascii_valid by (apply hex_ascii, Hid). auto.
-  Qed.
-
-  (** a stored id is returned as it is and nothing is written, whatever the draw and the clock *)
+  (** a stored id is returned as it is and nothing is touched, whatever the draw, the clock and the
+      outcomes of file operations would be *)
   Theorem get_machine_id_stored e f id : f machine_id_path = Some id -> utf8_valid id = true ->
-    get_machine_id utf8_valid e f = Ok (id, f).
+    get_machine_id utf8_valid e f = (Ok id, f).
+  Proof. intros Hf Hu. unfold get_machine_id. rewrite Hf, Hf, Hu. reflexivity. Qed.
+
+  (** no stored id: either the id of this draw and clock is created, stored and returned, or storing
+      failed (write or link error), the call returns the io error and NO id file exists afterwards -
+      never an empty or partial one *)
+  Theorem get_machine_id_fresh e f : DrawOK e -> f machine_id_path = None ->
+    exists f1, snd (get_machine_id utf8_valid e f) = f1 /\
+      match e_write e, e_link e with
+      | WriteDone, LinkDone =>
+          fst (get_machine_id utf8_valid e f) = Ok (new_id e) /\ f1 machine_id_path = Some (new_id e) /\ MachineId (new_id e)
+      | _, _ => fst (get_machine_id utf8_valid e f) = Err /\ f1 machine_id_path = None
+      end.
   Proof.
-    intros Hf Hu. unfold get_machine_id. rewrite Hf. cbn [bind]. rewrite Hf, Hu. reflexivity.
+    intros Hd Hf. destruct (create_and_store_spec e f Hd) as [Hr Hp]. rewrite Hf in Hr, Hp.
+    unfold get_machine_id. rewrite Hf.
+    destruct (create_and_store_machine_uuid e f) as [r f1] eqn:Hc. cbn [fst snd] in Hr, Hp.
+    pose proof (new_id_machine_id e (proj2 Hd)) as Hid.
+    destruct (e_write e) as [|l]; [destruct (e_link e)|]; subst r.
+    - rewrite Hp. rewrite ascii_valid by (apply hex_ascii, Hid). exists f1. cbn [fst snd]. auto.
+    - exists f1. cbn [fst snd]. auto.
+    - exists f1. cbn [fst snd]. auto.
   Qed.
 
-  (** hence: the id returned once is returned by every later call, for any later draw/clock/write
-      outcome, as long as the stored id exists (no call removes or rewrites it) *)
-  Theorem get_machine_id_stable e f id f1 : DrawOK e ->
-    (forall c, f machine_id_path = Some c -> utf8_valid c = true) ->
-    get_machine_id utf8_valid e f = Ok (id, f1) ->
-    f1 machine_id_path = Some id
-    /\ forall e2, get_machine_id utf8_valid e2 f1 = Ok (id, f1).
+  Lemma get_machine_id_keeps e f c :
+    f machine_id_path = Some c -> snd (get_machine_id utf8_valid e f) machine_id_path = Some c.
   Proof.
-    intros Hd Hstored H.
-    assert (Hboth : f1 machine_id_path = Some id /\ utf8_valid id = true).
-    { unfold get_machine_id in H. destruct (f machine_id_path) as [c|] eqn:Hf.
-      - cbn [bind] in H. rewrite Hf in H. rewrite (Hstored c eq_refl) in H. inversion H; subst. auto.
-      - rewrite create_and_store_spec in H by assumption. destruct (e_write_ok e); [|discriminate].
-        cbn [bind] in H. rewrite fs_write_same in H. destruct Hd as [_ Hb].
-        pose proof (new_id_machine_id e Hb) as [_ Hid]. rewrite ascii_valid in H by (apply hex_ascii, Hid).
-        inversion H; subst. rewrite fs_write_same. split; [reflexivity|]. apply ascii_valid, hex_ascii, Hid. }
-    destruct Hboth as [Hf1 Hu]. split; [assumption|]. intros e2. apply get_machine_id_stored; assumption.
+    intros Hf. unfold get_machine_id. rewrite Hf, Hf. destruct (utf8_valid c); exact Hf.
+  Qed.
+
+  Lemma get_machine_id_invariant e f : DrawOK e -> IdFileOK f -> IdFileOK (snd (get_machine_id utf8_valid e f)).
+  Proof.
+    intros Hd Hinv. destruct (f machine_id_path) as [c|] eqn:Hf.
+    - unfold IdFileOK. rewrite (get_machine_id_keeps e f c Hf). destruct Hinv as [H|H]; [congruence|]. right.
+      destruct H as (e0 & Hb & H). exists e0. split; [assumption|congruence].
+    - pose proof (create_and_store_invariant e f Hd Hinv) as Hc. unfold get_machine_id. rewrite Hf.
+      destruct (create_and_store_machine_uuid e f) as [r f1]. cbn [snd] in Hc.
+      destruct r as [[]| | | |]; try exact Hc.
+      destruct (f1 machine_id_path) as [v|]; [destruct (utf8_valid v)|]; exact Hc.
+  Qed.
+
+  (** the composed statement about the id.  Hypothesis: nobody but this code writes the id file
+      (IdFileOK: absent, or the complete id of some earlier draw and clock).  Then for EVERY draw, clock
+      value and outcome of write/link/remove: the call never panics; if it returns an id, that id is 32
+      hexadecimal digits, it is the stored id, and every later call - any draw, clock, file-operation
+      outcomes - returns exactly that string and leaves the file system alone; if it returns an error,
+      storing failed and there is still no id file (so a later call starts afresh); the invariant holds
+      afterwards in both cases *)
+  Theorem id_always_32hex e f : DrawOK e -> IdFileOK f ->
+    let (r, f1) := get_machine_id utf8_valid e f in
+    IdFileOK f1 /\
+    match r with
+    | Ok id => MachineId id /\ f1 machine_id_path = Some id
+               /\ forall e2, get_machine_id utf8_valid e2 f1 = (Ok id, f1)
+    | Err => f machine_id_path = None /\ f1 machine_id_path = None
+             /\ (e_write e <> WriteDone \/ e_link e = LinkFailed)
+    | _ => False
+    end.
+  Proof.
+    intros Hd Hinv. pose proof (get_machine_id_invariant e f Hd Hinv) as Hinv1.
+    destruct (get_machine_id utf8_valid e f) as [r f1] eqn:Hg. cbn [snd] in Hinv1. split; [exact Hinv1|].
+    destruct Hinv as [Hf|(e0 & Hb & Hf)].
+    - destruct (get_machine_id_fresh e f Hd Hf) as (f1' & Hs & H). rewrite Hg in Hs, H. cbn [fst snd] in Hs, H. subst f1'.
+      destruct (e_write e) as [|l] eqn:Hw; [destruct (e_link e) eqn:Hl|].
+      + destruct H as (-> & Hp & Hid). split; [exact Hid|]. split; [exact Hp|].
+        intros e2. apply get_machine_id_stored; [exact Hp|]. apply ascii_valid, hex_ascii, Hid.
+      + destruct H as (-> & Hp). auto.
+      + destruct H as (-> & Hp). split; [exact Hf|]. split; [exact Hp|]. left. discriminate.
+    - pose proof (new_id_machine_id e0 Hb) as Hid.
+      assert (Hu : utf8_valid (new_id e0) = true) by (apply ascii_valid, hex_ascii, Hid).
+      rewrite (get_machine_id_stored e f _ Hf Hu) in Hg. inversion Hg; subst.
+      split; [exact Hid|]. split; [exact Hf|]. intros e2. apply get_machine_id_stored; assumption.
   Qed.
 
   (* ================================================================= the Peer interface *)
@@ -287,7 +402,7 @@ Section WithUtf8.
   (** every message that is not a Ping/GetMachineId method call on the Peer interface - any other
       type, interface or member, or absent fields - is reported as not handled; nothing is written
       and the file system is not touched *)
-  Theorem handle_peer_other e f m : ~ IsPeerCall m -> handle_peer_message utf8_valid e f m = Ok (false, [], f).
+  Theorem handle_peer_other e f m : ~ IsPeerCall m -> handle_peer_message utf8_valid e f m = (Ok (false, []), f).
   Proof.
     intros Hn. unfold handle_peer_message.
     destruct (m_typ m) eqn:Ht; cbn [is_call negb]; try reflexivity.
@@ -302,69 +417,94 @@ Section WithUtf8.
 
   (** Ping: handled, exactly one message written: the empty reply to the call *)
   Theorem handle_peer_ping e f m : IsPing m ->
-    handle_peer_message utf8_valid e f m = Ok (true, [make_response (m_dh m)], f).
+    handle_peer_message utf8_valid e f m = (Ok (true, [make_response (m_dh m)]), f).
   Proof.
     intros [Ht [Hi Hm]]. unfold handle_peer_message. rewrite Ht, Hi, Hm, !str_eqb_refl. reflexivity.
   Qed.
 
-  (** GetMachineId: handled, exactly one message written: the reply to the call carrying the id,
-      which is the stored id when one exists and a fresh 32-hex-digit id otherwise *)
-  Theorem handle_peer_get_id e f m : IsGetMachineId m -> DrawOK e ->
-    match f machine_id_path with
-    | Some c => utf8_valid c = true /\ existsb (N.eqb 0) c = false
-    | None => e_write_ok e = true
-    end ->
-    exists id f1, handle_peer_message utf8_valid e f m = Ok (true, [push_str id (make_response (m_dh m))], f1)
-      /\ f1 machine_id_path = Some id
-      /\ match f machine_id_path with
-         | Some c => id = c /\ f1 = f
-         | None => id = new_id e /\ MachineId id /\ f1 = fs_write machine_id_path id f
-         end.
+  Lemma handle_peer_get_id_unfold e f m : IsGetMachineId m ->
+    handle_peer_message utf8_valid e f m
+    = match get_machine_id utf8_valid e f with
+      | (Ok id, f1) => if existsb (N.eqb 0) id then (Panic, f1)
+                       else (Ok (true, [push_str id (make_response (m_dh m))]), f1)
+      | (_, f1) => (Panic, f1)
+      end.
   Proof.
-    intros [Ht [Hi Hm]] Hd Hpre. unfold handle_peer_message. rewrite Ht, Hi, Hm, str_eqb_refl.
-    cbn [is_call negb].
-    rewrite (str_eqb_neq get_machine_id_name ping_name) by discriminate. rewrite str_eqb_refl.
-    destruct (f machine_id_path) as [c|] eqn:Hf.
-    - destruct Hpre as [Hu Hz]. rewrite (get_machine_id_stored e f c Hf Hu). rewrite Hz.
-      exists c, f. auto.
-    - destruct (get_machine_id_fresh e f Hd Hpre Hf) as (id & Hg & Hid & HM). rewrite Hg.
-      rewrite hex_no_nul by apply HM. exists id, (fs_write machine_id_path id f).
-      split; [reflexivity|]. split; [apply fs_write_same|]. auto.
+    intros [Ht [Hi Hm]]. unfold handle_peer_message. rewrite Ht, Hi, Hm, str_eqb_refl. cbn [is_call negb].
+    rewrite (str_eqb_neq get_machine_id_name ping_name) by discriminate. rewrite str_eqb_refl. reflexivity.
   Qed.
 
-  (** the composed statement about the id: once the stored file holds what create_and_store wrote
-      for SOME draw and clock (i.e. nobody else wrote /tmp/dbus_machine_uuid), every call - whatever
-      is drawn or read from the clock now, whether or not writing would succeed - returns exactly
-      that string, it is 32 hexadecimal digits, and the file system is left as it is *)
-  Theorem stored_id_always_32hex e0 f :
-    bytes_ok (e_rand e0) ->
-    f machine_id_path = Some (new_id e0) ->            (* environment: only create_and_store writes the file *)
-    forall e, get_machine_id utf8_valid e f = Ok (new_id e0, f) /\ MachineId (new_id e0).
+  (** GetMachineId under the environment hypothesis IdFileOK: unless storing a fresh id fails (an
+      environment failure: the handler's unwrap panics, nothing is written, no id file is left),
+      the call is handled and exactly one message is written: the reply to the call carrying a
+      32-hex-digit id - the stored one, or the fresh one, which is then stored *)
+  Theorem handle_peer_get_id e f m : IsGetMachineId m -> DrawOK e -> IdFileOK f ->
+    (f machine_id_path = None -> e_write e = WriteDone /\ e_link e = LinkDone) ->
+    exists id f1, handle_peer_message utf8_valid e f m = (Ok (true, [push_str id (make_response (m_dh m))]), f1)
+      /\ MachineId id /\ f1 machine_id_path = Some id
+      /\ match f machine_id_path with
+         | Some c => id = c /\ f1 = f
+         | None => id = new_id e
+         end.
   Proof.
-    intros Hb Hf e. pose proof (new_id_machine_id e0 Hb) as Hid. split; [|exact Hid].
-    apply get_machine_id_stored; [exact Hf|]. apply ascii_valid, hex_ascii, Hid.
+    intros Hm Hd Hinv Hpre. rewrite (handle_peer_get_id_unfold e f m Hm).
+    pose proof (id_always_32hex e f Hd Hinv) as H.
+    destruct (get_machine_id utf8_valid e f) as [r f1] eqn:Hg. destruct H as [_ H].
+    destruct r as [id| | | |]; try contradiction.
+    - destruct H as (Hid & Hp & _). rewrite hex_no_nul by apply Hid. exists id, f1.
+      split; [reflexivity|]. split; [exact Hid|]. split; [exact Hp|].
+      destruct (f machine_id_path) as [c|] eqn:Hf.
+      + destruct Hinv as [Hn|(e0 & Hb & Hf')]; [congruence|].
+        pose proof (new_id_machine_id e0 Hb) as Hid0. rewrite Hf in Hf'. inversion Hf'; subst c.
+        rewrite (get_machine_id_stored e f _ Hf (ascii_valid _ (hex_ascii _ (proj2 Hid0)))) in Hg.
+        inversion Hg; subst. auto.
+      + destruct (get_machine_id_fresh e f Hd Hf) as (f1' & _ & Hfr). destruct (Hpre eq_refl) as [Hw Hl].
+        rewrite Hw, Hl, Hg in Hfr. cbn [fst] in Hfr. destruct Hfr as (Hfr & _). inversion Hfr. reflexivity.
+    - destruct H as (Hf & _ & Hfail). destruct (Hpre Hf) as [Hw Hl]. destruct Hfail as [Hfail|Hfail]; congruence.
   Qed.
-  (** ... and from ANY state the environment assumption allows (no id file yet, or the file holds
-      what create_and_store wrote for some earlier draw and clock): the call returns a 32-digit
-      hexadecimal string, and every later call - any later draw, clock value, write outcome -
-      returns that same string *)
-  Theorem id_always_32hex e f : DrawOK e ->
-    match f machine_id_path with
-    | None => e_write_ok e = true
-    | Some c => exists e0, bytes_ok (e_rand e0) /\ c = new_id e0     (* nobody else writes the file *)
-    end ->
-    exists id f1, get_machine_id utf8_valid e f = Ok (id, f1) /\ MachineId id
-                  /\ forall e2, get_machine_id utf8_valid e2 f1 = Ok (id, f1).
+
+  (** in EVERY case - any message, any draw, clock, write/link/remove outcome, also when the handler
+      panics - the id file invariant is kept and a stored id is never replaced *)
+  Theorem handle_peer_invariant e f m : DrawOK e -> IdFileOK f -> IdFileOK (snd (handle_peer_message utf8_valid e f m)).
   Proof.
-    intros Hd Hpre. destruct (f machine_id_path) as [c|] eqn:Hf.
-    - destruct Hpre as (e0 & Hb & ->). exists (new_id e0), f.
-      destruct (stored_id_always_32hex e0 f Hb Hf e) as [H1 H2]. split; [exact H1|]. split; [exact H2|].
-      intros e2. apply (stored_id_always_32hex e0 f Hb Hf e2).
-    - destruct (get_machine_id_fresh e f Hd Hpre Hf) as (id & Hg & -> & HM).
-      exists (new_id e), (fs_write machine_id_path (new_id e) f). split; [exact Hg|]. split; [exact HM|].
-      destruct Hd as [_ Hb]. intros e2.
-      apply (stored_id_always_32hex e (fs_write machine_id_path (new_id e) f) Hb (fs_write_same _ _ _) e2).
+    intros Hd Hinv.
+    assert (Hg : IdFileOK (snd (get_machine_id utf8_valid e f))) by now apply get_machine_id_invariant.
+    unfold handle_peer_message.
+    destruct (negb (is_call (m_typ m))); [exact Hinv|].
+    destruct (dh_interface (m_dh m)) as [i|]; [|exact Hinv].
+    destruct (str_eqb i peer_iface); [|exact Hinv].
+    destruct (dh_member (m_dh m)) as [mem|]; [|exact Hinv].
+    destruct (str_eqb mem ping_name); [exact Hinv|].
+    destruct (str_eqb mem get_machine_id_name); [|exact Hinv].
+    destruct (get_machine_id utf8_valid e f) as [r f1]. cbn [snd] in Hg.
+    destruct r as [id| | | |]; try exact Hg. destruct (existsb (N.eqb 0) id); exact Hg.
   Qed.
+
+  Theorem handle_peer_keeps e f m c :
+    f machine_id_path = Some c -> snd (handle_peer_message utf8_valid e f m) machine_id_path = Some c.
+  Proof.
+    intros Hf. pose proof (get_machine_id_keeps e f c Hf) as Hg. unfold handle_peer_message.
+    destruct (negb (is_call (m_typ m))); [exact Hf|].
+    destruct (dh_interface (m_dh m)) as [i|]; [|exact Hf].
+    destruct (str_eqb i peer_iface); [|exact Hf].
+    destruct (dh_member (m_dh m)) as [mem|]; [|exact Hf].
+    destruct (str_eqb mem ping_name); [exact Hf|].
+    destruct (str_eqb mem get_machine_id_name); [|exact Hf].
+    destruct (get_machine_id utf8_valid e f) as [r f1]. cbn [snd] in Hg.
+    destruct r as [id| | | |]; try exact Hg. destruct (existsb (N.eqb 0) id); exact Hg.
+  Qed.
+
+  (* the states reachable by any sequence of calls of handle_peer_message (any messages, draws, clock
+     values and file-operation outcomes) *)
+  Inductive Reach (f0 : fs) : fs -> Prop :=
+  | Reach_refl : Reach f0 f0
+  | Reach_step : forall f e m, Reach f0 f -> DrawOK e -> Reach f0 (snd (handle_peer_message utf8_valid e f m)).
+
+  Theorem reach_invariant f0 f : IdFileOK f0 -> Reach f0 f -> IdFileOK f.
+  Proof. intros H0. induction 1; [exact H0|]. now apply handle_peer_invariant. Qed.
+
+  Theorem reach_keeps f0 f c : f0 machine_id_path = Some c -> Reach f0 f -> f machine_id_path = Some c.
+  Proof. intros H0. induction 1; [exact H0|]. now apply handle_peer_keeps. Qed.
 End WithUtf8.
 
 Lemma ascii_only_valid s : Forall (fun c => c < 128) s -> ascii_only s = true.
